@@ -1,3 +1,13 @@
 import RV.C07.Props
 open RV.C07
-#print axioms placeholder
+#print axioms eq_equiv
+#print axioms eq_kind_disjoint
+#print axioms lit_eq_iff
+#print axioms hash_coherent
+#print axioms kind_order
+#print axioms nonlit_strict_total
+#print axioms same_class_string_order
+#print axioms sort_deterministic
+#print axioms order_consistent_partial
+#print axioms order_consistent_witness
+#print axioms strOracle_sound
